@@ -38,7 +38,13 @@ func (c *zzCore) GetTracer() tracer.Controller { return c.tracer }
 
 func zzNewCore(h func(c context.Context, ctx *app.RequestContext)) *zzCore {
 	core := &zzCore{handler: h}
-	core.pool.New = func() interface{} { return app.NewContext(0) }
+	core.pool.New = func() interface{} {
+		// as route.Engine.allocateContext does (default MaxKeepBodySize)
+		ctx := app.NewContext(0)
+		ctx.Request.SetMaxKeepBodySize(4 * 1024 * 1024)
+		ctx.Response.SetMaxKeepBodySize(4 * 1024 * 1024)
+		return ctx
+	}
 	return core
 }
 
